@@ -26,7 +26,7 @@ def main():
         tier = args[i + 1]
         del args[i:i + 2]
     extra_props = {}
-    ids = args or sorted(os.listdir(os.path.join(VERIF, 'seeded')))
+    ids = args or sorted(x for x in os.listdir(os.path.join(VERIF, 'seeded')) if not x.startswith('_'))
     st = subprocess.run(['git', '-C', '/repo', 'status', '--porcelain'], capture_output=True, text=True).stdout
     if st.strip():
         print('refusing: /repo has uncommitted changes:\n' + st)
